@@ -1,9 +1,30 @@
-/- connection-level model driver (stub; see H2V/Model/Conn*.lean) -/
-partial def loop (hin : IO.FS.Stream) : IO Unit := do
+import H2V.Model.ConnDriver
+import H2V.Model.ConnInv
+/- connection-level model driver: one answer line per op line (see H2V/Model/Conn*.lean, tools/conndiff.py).
+   With H2V_CONN_INV set, the candidate invariants of H2V/Model/ConnInv.lean are evaluated after every op and
+   the violated ones are written to stderr as `INV <op number> <op> :: <violation>`. -/
+open H2V.Model.Conn
+
+partial def loop (hin hout : IO.FS.Stream) (inv : Bool) (n : Nat) (w : World) : IO Unit := do
   let line ← hin.getLine
   if line.isEmpty then return ()
-  IO.println "unmodelled"
-  loop hin
+  let t := line.trimAscii.toString
+  if t.isEmpty || t.startsWith "#" then
+    loop hin hout inv n w
+  else
+    let ws := (t.splitOn " ").filter (· ≠ "")
+    let (w', out) := step w ws
+    hout.putStrLn out
+    if inv && !w'.gaveUp && !w'.connGone then
+      match w'.conn with
+      | some c =>
+        for v in violations c do
+          IO.eprintln s!"INV {n} {(t.take 40).toString} :: {v}"
+      | none => pure ()
+    loop hin hout inv (n + 1) w'
 
 def main : IO Unit := do
-  loop (← IO.getStdin)
+  let hin ← IO.getStdin
+  let hout ← IO.getStdout
+  let inv := (← IO.getEnv "H2V_CONN_INV").isSome
+  loop hin hout inv 0 {}
